@@ -16,6 +16,7 @@ import jax.random as jr
 import numpy as np
 from hypothesis import strategies as st
 
+from flowjax import bijections as B
 from flowjax import distributions as D
 from vf import bijcase as bc
 from vf import build as bd
@@ -257,12 +258,81 @@ def check_dist(c, ctx):
     return True
 
 
+# ---------------------------------------------------------------------------------------------------
+# sibling histories: two models of the SAME architecture that differ only in construction-time values are traced one
+# after the other in one process; each must still equal its own eager result (a jit cache keyed on too little - e.g. a
+# hashable helper object comparing structure but not values - silently runs model B with model A's constants)
+# ---------------------------------------------------------------------------------------------------
+def _sibling(kind, v, seed):
+    key = jr.PRNGKey(int(seed))
+    loc, scale = float(v[0]), float(abs(v[1]) + 0.2)
+    tr = B.Affine(jnp.asarray(loc), jnp.asarray(scale))
+    if kind == "Coupling":
+        return B.Coupling(key, transformer=tr, untransformed_dim=1, dim=3, nn_width=4, nn_depth=1), "bij"
+    if kind == "MaskedAutoregressive":
+        return B.MaskedAutoregressive(key, transformer=tr, dim=3, nn_width=4, nn_depth=1), "bij"
+    if kind in ("coupling_flow", "masked_autoregressive_flow"):
+        from flowjax import flows
+        return getattr(flows, kind)(key, base_dist=D.StandardNormal((2,)), transformer=tr, flow_layers=2, nn_width=4), "dist"
+    if kind == "LeakyTanh":
+        return B.LeakyTanh(0.5 + abs(loc)), "bij0"
+    if kind == "RQS":
+        return B.RationalQuadraticSpline(knots=3, interval=(-1.0 - abs(loc), 1.0 + scale)), "bij0"
+    if kind == "Planar":
+        return B.Planar(key, dim=3, negative_slope=0.1 + 0.8 * scale / (1 + scale)), "bij"
+    if kind == "Scale":
+        return B.Scale(jnp.full((3,), scale)), "bij"
+    raise ValueError(kind)
+
+
+def check_siblings(c, ctx):
+    kind = c["sib"]
+    models = [_sibling(kind, v, c["seed"]) for v in c["vals"]]
+    who = f"siblings|{kind}"
+    mode = models[0][1]
+    xs = np.asarray(c["x"], np.float64)
+    key = jr.PRNGKey(int(c["key"]))
+    order = [int(i) % len(models) for i in c["order"]]
+    for step, i in enumerate(order):  # the HISTORY: which model is traced when
+        m = models[i][0]
+        if mode == "dist":
+            x = jnp.asarray(xs[:2])
+            calls = [("log_prob", lambda f: f(m.log_prob)(x), ), ("sample", lambda f: f(m.sample)(key, (2,)))]
+        else:
+            x = jnp.asarray(xs[:3] if mode == "bij" else xs[0])
+            calls = [(n, (lambda n_: lambda f: f(getattr(m, n_))(x))(n)) for n in ("transform", "transform_and_log_det", "inverse")]
+            calls.append(("shared_jit.transform", lambda f: (_jit_call(m, "transform", x, None) if f is not _ident else m.transform(x))))
+        for name, call in calls:
+            j = lib_call(f"C14|{who}|jit|{name}", call, eqx.filter_jit)
+            e = lib_call(f"C14|{who}|eager|{name}", call, _ident)
+            if not near(j, e, TOL):
+                raise Violation(f"C14|{who}|jit_vs_eager_after_sibling|{name}",
+                                f"step {step} of order {order}: model {i} (constructor values {c['vals'][i]}) gives "
+                                f"{[np.asarray(t).tolist() for t in flat(j)]} under jit but {[np.asarray(t).tolist() for t in flat(e)]} eagerly")
+    ctx.hist("sibling_kind", kind)
+    return len(set(order)) > 1
+
+
+def _ident(f):
+    return f
+
+
+@st.composite
+def sibling_cases(draw):
+    n = draw(st.integers(2, 3))
+    return {"sib": draw(st.sampled_from(["Coupling", "MaskedAutoregressive", "coupling_flow", "masked_autoregressive_flow", "LeakyTanh",
+                                         "RQS", "Planar", "Scale"])),
+            "vals": [[draw(st.floats(-2, 2)), draw(st.floats(-2, 2))] for _ in range(n)],
+            "order": draw(st.lists(st.integers(0, 2), min_size=2, max_size=4)), "seed": draw(st.integers(0, 99)),
+            "x": draw(st.lists(st.floats(-1.5, 1.5), min_size=3, max_size=3)), "key": draw(st.integers(0, 10**6))}
+
+
 def oracle(case, ctx):
     ctx.evaluated()
     if ctx.evaluations % 6 == 0:  # every case compiles ~20 executables: release their memory maps often (DESIGN F4)
         from vf.core import clear_jax_caches
         clear_jax_caches()
-    nt = check_dist(case, ctx) if "dist" in case else check_bijection(case, ctx)
+    nt = check_siblings(case, ctx) if "sib" in case else (check_dist(case, ctx) if "dist" in case else check_bijection(case, ctx))
     if nt:
         ctx.mark_nontrivial(case)
     if ctx.evaluations % 23 == 1:
@@ -270,7 +340,7 @@ def oracle(case, ctx):
 
 
 def replay(spec, ctx):
-    oracle(spec.get("spec", spec) if ("kind" not in spec and "dist" not in spec) else spec, ctx)
+    oracle(spec.get("spec", spec) if ("kind" not in spec and "dist" not in spec and "sib" not in spec) else spec, ctx)
 
 
 @st.composite
@@ -285,6 +355,7 @@ def dist_cases(draw):
 
 def run(ctx):
     q = ctx.tier == "quick"
+    run_hypothesis(ctx, sibling_cases(), oracle, 5 if q else 50, "C14-siblings")
     run_hypothesis(ctx, bc.leaf_cases(inv=False), oracle, 20 if q else 200, "C14-leaves")
     run_hypothesis(ctx, bc.tree_cases(3, 7, inv=False) if q else bc.tree_cases(4, 12, inv=False), oracle, 6 if q else 60,
                    "C14-trees")
